@@ -62,7 +62,7 @@ func aaFrequency(a align.Alignment, weights []float64, selected []bool) ([]float
 					num[idx] += w
 				} else {
 					for i = 0; i < ns; i++ {
-						num[i] = w * freq[i]
+						num[i] += w * freq[i]
 					}
 				}
 			}
